@@ -369,6 +369,33 @@ def callsOfOp (t : Nat) (kind : Char) (a : Nat) : List Call :=
   | 'j' => [⟨.randi, 0⟩]
   | 'k' => [⟨.rng, 0⟩]
   | 'S' => [⟨.planSolve, a⟩]
+  -- calls that throw: the same entry points (hence the same footprints) as their valid forms — a rejected call touches
+  -- nothing outside the footprint of the accepted one
+  | 'e' => [⟨.irfft, 0⟩]
+  | 'm' => [⟨.irfft, 0⟩]
+  | 'T' => [⟨.planSolve, a⟩]
+  | 'Q' => [⟨.planSolve, own 2⟩]
   | _ => []
+
+/-! ## 5. the floating-point environment
+
+The rounding mode, the flush-to-zero / denormals-are-zero bits and the exception masks are state of the CALLING THREAD
+(MXCSR / x87 control word / FPCR), copied from the creating thread when a thread is created.  Every numeric entry point
+reads it (each rounding depends on it).  The table says which entry points WRITE it: none.  (A library that switched a
+mode on in one thread — e.g. "once per process" behind a function-local static — makes the same call return different
+results in different threads without any data race.)  Tie: the harness reads the environment before and after every
+library call in every thread (`C fpenv <kind> <calls> | <calls that changed it>`); the driver answers from this table. -/
+def writesFpEnv : Api → Bool
+  | _ => false
+
+def fpEnvWriters : List Api := allApis.filter writesFpEnv
+
+/-- entry points behind the call kinds of the harness's environment check (`C` = plan constructors, `K` = the DSPLIB_VERIF key hooks,
+the rest as in `callsOfOp`) -/
+def apisOfKind (kind : Char) : List Api :=
+  match kind with
+  | 'C' => [.planCtor]
+  | 'K' => [.verifKeys]
+  | k => (callsOfOp 0 k 0).map (·.api)
 
 end Dsp.Conc
